@@ -57,6 +57,22 @@ namespace occa {
           }
         }
 
+        if (valid) {
+          // The iterator has to move towards the bound: [i < N; ++i], [N > i; i += s],
+          // [i >= 0; --i], ... but not [i > N; ++i] or [i < N; --i]
+          const bool iteratorOnSmallerSide = (
+            ((bool) (checkOp->opType() & (operatorType::lessThan |
+                                          operatorType::lessThanEq)))
+            == checkValueOnRight
+          );
+          if (iteratorOnSmallerSide != positiveUpdate) {
+            valid = false;
+            if (printErrors) {
+              forSmnt.printError(sourceStr() + "OKL for loop range is empty or infinite!");
+            }
+          }
+        }
+
         if(valid) {
           exprNode* loop_range_node = getIterationCount();
           if (loop_range_node->canEvaluate()) {
